@@ -133,6 +133,10 @@ def describe(oc, arrays, cfg):
             "cplx": bool(jnp.iscomplexobj(arrays.fields.E)),
             "ieps9": fl(np.asarray(arrays.inv_permittivities)) if np.ndim(arrays.inv_permittivities) == 4 and np.shape(arrays.inv_permittivities)[0] == 9 else None,
             "imu9": fl(np.asarray(arrays.inv_permeabilities)) if np.ndim(arrays.inv_permeabilities) == 4 and np.shape(arrays.inv_permeabilities)[0] == 9 else None,
+            # 9-component views of the inverse tensors (what expand_to_3x3 produces) and whether a conductivity alone forces the full-anisotropic branch
+            "ieps9x": fl(as9(arrays.inv_permittivities, sh)), "imu9x": fl(as9(arrays.inv_permeabilities, sh)),
+            "sigE_full": bool(arrays.electric_conductivity is not None and np.ndim(arrays.electric_conductivity) == 4 and np.shape(arrays.electric_conductivity)[0] == 9),
+            "sigH_full": bool(arrays.magnetic_conductivity is not None and np.ndim(arrays.magnetic_conductivity) == 4 and np.shape(arrays.magnetic_conductivity)[0] == 9),
             "sigE9": fl(as9(arrays.electric_conductivity, sh)) if arrays.electric_conductivity is not None else None,
             "sigH9": fl(as9(arrays.magnetic_conductivity, sh)) if arrays.magnetic_conductivity is not None else None}
 
